@@ -131,6 +131,8 @@ def tlwe_groups(tag, tier):
         for fn in ['tLweExtractLweSampleIndex', 'tLweExtractKey']:
             gs.append(Group('%s.%s.k=%d' % (tag, fn, K), 'c14_tlwe.c', 'h_' + fn, extract=[(LW, fn)], enforce=fn, loops=True, timeout=1200,
                             defines={'VERIF_K': K}, instance={'k': K}, replay=('extract', fn)))
+            if fn == 'tLweExtractLweSampleIndex':
+                gs[-1].arb_bound = 3       # bounded arbiter: N <= 3 (N <= 4 exhausts 8 GB in the SAT back end; 3 still has a non power of two)
         gs.append(Group('%s.tLweExtractLweSample.k=%d' % (tag, K), 'c14_tlwe.c', 'h_tLweExtractLweSample', extract=[(LW, 'tLweExtractLweSample')],
                         enforce='tLweExtractLweSample', replace=['tLweExtractLweSampleIndex'],
                         defines={'VERIF_K': K, 'EXTRACT_CALLEE_CONTRACT': None}, instance={'k': K}, replay=('extract', 'tLweExtractLweSample')))
@@ -291,7 +293,8 @@ def c04_groups(tier, tag='C04'):
                         enforce='modSwitchFromTorus32', defines={'VERIF_MSIZE': '%du' % M}, replay='numeric', instance={'Msize': M}))
     for K in ([1] if tier == 'quick' else [1, 2, 3]):
         gs.append(Group('%s.dep.tLweExtractLweSampleIndex.k=%d' % (tag, K), 'c14_tlwe.c', 'h_tLweExtractLweSampleIndex', extract=[(LW, 'tLweExtractLweSampleIndex')],
-                        enforce='tLweExtractLweSampleIndex', loops=True, timeout=1200, defines={'VERIF_K': K}))
+                        enforce='tLweExtractLweSampleIndex', loops=True, timeout=1200, defines={'VERIF_K': K}, replay=('extract', 'tLweExtractLweSampleIndex')))
+        gs[-1].arb_bound = 3
         gs.append(Group('%s.dep.tLweExtractLweSample.k=%d' % (tag, K), 'c14_tlwe.c', 'h_tLweExtractLweSample', extract=[(LW, 'tLweExtractLweSample')],
                         enforce='tLweExtractLweSample', replace=['tLweExtractLweSampleIndex'], defines={'VERIF_K': K, 'EXTRACT_CALLEE_CONTRACT': None}))
         gs.append(Group('%s.dep.tLweNoiselessTrivial.k=%d' % (tag, K), 'c14_tlwe.c', 'h_tLweNoiselessTrivial', extract=[(TL, 'tLweNoiselessTrivial')],
@@ -599,6 +602,16 @@ def c03_groups(tier, tag='C03'):
     return gs
 
 
+def ksc_inc(T, BB):
+    base = 1 << BB
+    rows = ' '.join('M(%d, %d)' % (j, d) for j in range(T) for d in range(1, base))
+    full = lambda q: '((uint64_t)%dull << %d)' % ((1 << base) - 2, q * base)
+    part = lambda q: '((uint64_t)((((uint64_t)1 << (h)) - 1) & ~(uint64_t)1) << %d)' % (q * base)
+    mask = ' | '.join('((%d < (j)) ? %s : ((%d == (j)) ? %s : (uint64_t)0))' % (q, full(q), q, part(q)) for q in range(T))
+    assert T * base <= 64
+    return ('#define KSC_BLOCKS(M) %s\n#define KSC_ROWS(M) %s\n#define KSC_MASK(j, h) (%s)\n' % (' '.join('M(%d)' % q for q in range(T)), rows, mask))
+
+
 def c07_groups(tier, tag='C07'):
     gs = enc_groups(tag)
     gs.append(Group(tag + '.tfhe_createLweBootstrappingKey', 'c03_encrypt.c', 'h_createBootstrappingKey', extract=[(BN_, 'tfhe_createLweBootstrappingKey')],
@@ -609,6 +622,12 @@ def c07_groups(tier, tag='C07'):
         gs.append(Group('%s.lweCreateKeySwitchKey.bounded.n=%d.t=%d.basebit=%d' % (tag, n_, t_, bb_), 'c03_encrypt.c', 'h_b_createKeySwitchKey',
                         extract=[(KS, 'lweCreateKeySwitchKey', S_)], defines={'H_KSCREATE': None, 'VERIF_KS_N': n_, 'VERIF_KS_T': t_, 'VERIF_KS_BB': bb_, 'KS_ALPHA_SYMBOLIC': None},
                         unwind=n_ * t_ * (1 << bb_) + 3, bounded=True, timeout=900, instance={'n': n_, 't': t_, 'basebit': bb_, 'alpha': 'symbolic in [0,1]'}))
+    for (t_, bb_) in ([(8, 2), (2, 1), (3, 3), (1, 4)] if tier == 'quick' else [(8, 2), (2, 1), (3, 3), (1, 4), (15, 2), (4, 4), (5, 3), (16, 1), (1, 1), (2, 5)]):
+        gs.append(Group('%s.lweCreateKeySwitchKey.unbounded.t=%d.basebit=%d' % (tag, t_, bb_), 'c03_encrypt.c', 'h_createKeySwitchKey_unbounded',
+                        extract=[(KS, 'lweCreateKeySwitchKey', S_)], loops=True, defines={'H_KSCREATE_U': None, 'VERIF_KS_T': t_, 'VERIF_KS_BB': bb_},
+                        gen={'ksc.inc': ksc_inc(t_, bb_)}, timeout=1500, instance={'t': t_, 'basebit': bb_, 'n': 'symbolic', 'index': 'symbolic', 'alpha': 'symbolic in [0,1]'}))
+        gs[-1].arb_bound = 1                                       # bounded arbiter: n = 1 (each unwound draw iteration adds an addressed object and IEEE operations)
+        gs[-1].arb_unwind = t_ * ((1 << bb_) - 1) + 3
     for K in ([1, 2] if tier == 'quick' else [1, 2, 3]):
         gs.append(Group('%s.tLweKeyGen.k=%d' % (tag, K), 'c03_encrypt.c', 'h_tLweKeyGen', extract=[(TL, 'tLweKeyGen', S_)], loops=True,
                         defines={'H_TLWEKEYGEN': None, 'VERIF_K': K}, instance={'k': K}, replay=('keygen', 'tlwe')))
